@@ -81,7 +81,7 @@ Lemma enter_precommit_adv h r s s' o :
   enter_precommit E h r s = (s', o) ->
   (cs_halted s' = false /\ cs_height s' = h /\ cs_round s' = r /\ cs_step s' = SPrecommit /\
    cs_votes s' = cs_votes s /\ cs_scheduled s' = cs_scheduled s /\ cs_triggered s' = cs_triggered s)
-  \/ (cs_halted s' = true /\ pos s' = pos s /\ precommit_failure r s o).
+  \/ (cs_halted s' = true /\ (pos s' = pos s /\ s' = set_halted s) /\ precommit_failure r s o).
 Proof.
   intros Hh H1 H2 H3 Eq. unfold enter_precommit, step_le in Eq.
   rewrite H1, H2, !Z.eqb_refl, Z.ltb_irrefl in Eq. cbn [negb orb andb step_rank] in Eq.
@@ -101,7 +101,7 @@ Proof.
       destruct (seq (sign_add_vote E PRECOMMIT None) (modify (set_rs r SPrecommit)) s) as [a b] eqn:Es.
       exact Eq. }
   destruct (fst (pol_info (cs_votes s)) <? r) eqn:Pi.
-  { right. unfold panic in Eq. injection Eq as <- <-. cs. split; [reflexivity|]. split; [apply pos_eq; cs; reflexivity|].
+  { right. unfold panic in Eq. injection Eq as <- <-. cs. split; [reflexivity|]. split; [split; [apply pos_eq; cs; reflexivity | reflexivity]|].
     left. split; [reflexivity | split; [apply Z.ltb_lt; exact Pi | rewrite Maj; discriminate]]. }
   destruct polka as [[hh ph]|].
   2:{ left. refine (Tail _ _ _ _ _ _ _ Eq); cbv beta; destruct (cs_lblock s); cs; auto. }
@@ -111,7 +111,7 @@ Proof.
   { destruct (hashes_to_some _ _ HP) as (pb & Ep & Ehh). rewrite Ep in Eq.
     destruct (b_valid pb) eqn:Ev; cbn [negb] in Eq.
     - left. refine (Tail _ _ _ _ _ _ _ Eq); cbv beta; cs; auto.
-    - right. unfold panic in Eq. injection Eq as <- <-. cs. split; [reflexivity|]. split; [apply pos_eq; cs; reflexivity|].
+    - right. unfold panic in Eq. injection Eq as <- <-. cs. split; [reflexivity|]. split; [split; [apply pos_eq; cs; reflexivity | reflexivity]|].
       right. split; [reflexivity|]. exists pb, ph. subst hh. auto. }
   left. refine (Tail _ _ _ _ _ _ _ Eq); cbv beta zeta;
     destruct (has_header (cs_pparts (set_locked (-1) None None s)) ph); cs; auto.
